@@ -33,7 +33,7 @@ DInit == /\ now = 0 /\ phase = "start" /\ rn = FALSE /\ next = 0 /\ bi = 1 /\ cl
 StartViolation ==
   IF closed THEN "I_NoneAfterClose"
   ELSE IF lastOk = "ok" /\ credits = 0 THEN "I_NeedsRequest"
-  ELSE IF lastOk = "ok" /\ now < lastStart + MinI THEN "I_MinInterval"
+  ELSE IF lastOk = "ok" /\ now < lastEnd + MinI THEN "I_MinInterval"
   ELSE IF lastOk = "fail" /\ now < lastEnd + Lo(fails) THEN "I_BackoffEarly"
   ELSE IF lastOk = "fail" /\ now > lastEnd + Hi(fails) THEN "I_BackoffLate"
   ELSE "none"
@@ -51,7 +51,7 @@ LookupEnd(ok, d) ==
   /\ phase = "inlookup"
   /\ lastEnd' = now /\ lastOk' = (IF ok THEN "ok" ELSE "fail") /\ fails' = (IF ok THEN 0 ELSE fails + 1)
   /\ IF ok THEN /\ bi' = 1 /\ phase' = "waitRN" /\ d = 0
-                /\ next' = IF Mutant = 3 THEN lastStart + MinI - 1 ELSE now + MinI
+                /\ next' = IF Mutant = 3 THEN lastStart + MinI ELSE now + MinI     \* Mutant 3: measured from the lookup's start
            ELSE /\ d \in Lo(bi)..Hi(bi) /\ next' = now + d /\ bi' = bi + 1 /\ phase' = "waitT"
   /\ UNCHANGED <<now, rn, closed, dur, lastStart, credits, reqAfterStart, nl, nreq, viol>>
 
